@@ -27,7 +27,12 @@ type URIHdrsLst struct {
 
 // Reset re-initializes the parsed parameter list
 func (l *URIHdrsLst) Reset() {
-	for i := 0; i < l.HNo(); i++ {
+	// reset also the slot of a partially parsed header (Hdrs[N])
+	n := l.N + 1
+	if n > len(l.Hdrs) {
+		n = len(l.Hdrs)
+	}
+	for i := 0; i < n; i++ {
 		l.Hdrs[i].Reset()
 	}
 	t := l.Hdrs
